@@ -74,7 +74,7 @@ def ensure_built():
             open(os.path.join(bindir, '.ok'), 'w').close()
         # keep the bin cache small
         try:
-            all_ = sorted((os.path.getmtime(os.path.join(CACHE, 'bin', d)), d) for d in os.listdir(os.path.join(CACHE, 'bin')))
+            all_ = sorted((os.path.getmtime(os.path.join(CACHE, 'bin', d)), d) for d in os.listdir(os.path.join(CACHE, 'bin')) if not d.startswith('rvnative'))
             for _, d in all_[:-6]:
                 if d != h:
                     shutil.rmtree(os.path.join(CACHE, 'bin', d), ignore_errors=True)
@@ -84,6 +84,65 @@ def ensure_built():
     _BIN = bindir
     os.environ['RV_BIN'] = bindir   # inherited by pool workers
     return bindir
+
+
+_NATIVE = None
+
+
+def ensure_native():
+    """Build the direct-call harness (path dependency on /repo, feature verif); return the executable."""
+    global _NATIVE
+    if _NATIVE:
+        return _NATIVE
+    if os.environ.get('RV_NATIVE'):
+        _NATIVE = os.environ['RV_NATIVE']
+        return _NATIVE
+    hd = os.path.join(VERIF, 'native', 'harness')
+    os.makedirs(CACHE, exist_ok=True)
+    with open(os.path.join(CACHE, 'native.lock'), 'w') as lk:
+        fcntl.flock(lk, fcntl.LOCK_EX)
+        lock_src = os.path.join(REPO, 'Cargo.lock')
+        lock_dst = os.path.join(hd, 'Cargo.lock')
+        if not os.path.exists(lock_dst):
+            shutil.copy(lock_src, lock_dst)
+        t0 = time.time()
+        p = subprocess.run(['cargo', 'build', '--offline', '--manifest-path', os.path.join(hd, 'Cargo.toml'),
+                            '--target-dir', os.path.join(CACHE, 'native-target')],
+                           env=dict(os.environ, CARGO_NET_OFFLINE='true'), stdout=subprocess.PIPE, stderr=subprocess.STDOUT, text=True)
+        if p.returncode != 0:
+            # a stale lockfile is the usual reason: start again from /repo's
+            shutil.copy(lock_src, lock_dst)
+            p = subprocess.run(['cargo', 'build', '--offline', '--manifest-path', os.path.join(hd, 'Cargo.toml'),
+                                '--target-dir', os.path.join(CACHE, 'native-target')],
+                               env=dict(os.environ, CARGO_NET_OFFLINE='true'), stdout=subprocess.PIPE, stderr=subprocess.STDOUT, text=True)
+        if p.returncode != 0:
+            log(p.stdout[-4000:])
+            raise SystemExit('rv: cargo build of the native harness failed')
+        exe = os.path.join(CACHE, 'native-target', 'debug', 'rvnative')
+        h = hashlib.sha256(open(exe, 'rb').read()).hexdigest()[:16]
+        dst = os.path.join(CACHE, 'bin', 'rvnative-' + h)
+        if not os.path.exists(dst):
+            os.makedirs(os.path.dirname(dst), exist_ok=True)
+            shutil.copy2(exe, dst + '.tmp%d' % os.getpid())
+            os.rename(dst + '.tmp%d' % os.getpid(), dst)
+        log('rv: built native harness in %.1fs' % (time.time() - t0))
+    _NATIVE = dst
+    os.environ['RV_NATIVE'] = dst
+    return dst
+
+
+def native_call(mode, rows, cwd=None, timeout=300):
+    """rows: list of lists of bytes/str fields -> list of lists of str fields (hex where the harness says so)."""
+    exe = ensure_native()
+    inp = []
+    for r in rows:
+        inp.append('\t'.join(f.hex() if isinstance(f, (bytes, bytearray)) else str(f) for f in r))
+    p = subprocess.run([exe, mode], input=('\n'.join(inp) + '\n').encode(), stdout=subprocess.PIPE, stderr=subprocess.PIPE,
+                       cwd=cwd, timeout=timeout, env=base_env())
+    if p.returncode != 0:
+        return None, p.returncode, p.stderr.decode('utf-8', 'replace')
+    out = [l.split('\t') for l in p.stdout.decode().split('\n')[:-1]]
+    return out, 0, p.stderr.decode('utf-8', 'replace')
 
 
 # --------------------------------------------------------------------------- sandbox
